@@ -1,0 +1,10 @@
+//go:build verif
+
+package webp
+
+import "github.com/deepteams/webp/internal/lossless"
+
+// VerifLosslessPackedRead re-exports lossless.VerifPackedRead for the /verif harness.
+func VerifLosslessPackedRead(lensG, lensR, lensB, lensA []int, data []byte) (uint32, int, bool, int, bool) {
+	return lossless.VerifPackedRead(lensG, lensR, lensB, lensA, data)
+}
